@@ -8,6 +8,10 @@
       record, own topic / partition / epoch)                                           — `Own`
     * does not pass an unfinished record: every consumed record of that topic/partition that is
       neither acknowledged nor dropped has `record.offset ≥ offset`                     — `NoPass`
+  `Own` is parametrised by the set of records a mark may be one past: the theorems instantiate it
+  with the ACKNOWLEDGED records (what the code does), the run-time oracle with every CONSUMED record
+  (what the property demands); a mark one past a refused / dropped record with nothing unfinished
+  before it is not a violation.
   The Bool versions are what `fdmodel` evaluates on the implementation's observed marks; Props/C10
   proves them equivalent to the Prop versions (`ownB_iff`, `noPassB_iff`).
 -/
